@@ -10,5 +10,6 @@ INVARIANT BodiesRoundTrip
 INVARIANT BigMessages
 INVARIANT Unsupported
 INVARIANT DatagramRecordByRecord
+INVARIANT CompleteIsFinal
 INVARIANT EmitCase
 CHECK_DEADLOCK FALSE
